@@ -273,6 +273,17 @@ func (w *world) react(c *fakenet.Conn, qi dnsadv.QueryInfo) {
 		}
 		c.Inject(g)
 		c.InjectEOF()
+	case "stray-then-silence":
+		// a reply whose ID matches no outstanding query (duplicate / stray), then nothing
+		w.mu.Lock()
+		already := w.connReplies[c] > 0
+		w.connReplies[c]++
+		w.mu.Unlock()
+		if already {
+			return // exactly one stray per connection, then the peer is silent (also towards resends)
+		}
+		qs := append(wire.EncodeName("stray.c07.test."), 0, 1, 0, 1)
+		inject(dnsadv.Reply(qi.WireID+0x4000, 0x8180, qs, "stray", 0, 0))
 	case "silence", "silence-after-first":
 		if w.fc.Fault == "silence-after-first" && n == 1 {
 			good()
@@ -486,7 +497,7 @@ func runCase(fc fcase) {
 		enabling = time.Now()
 		if fc.Ender == "none" {
 			switch fc.Fault {
-			case "silence", "silence-after-first", "dial-block":
+			case "silence", "silence-after-first", "dial-block", "stray-then-silence":
 				bound = wSilence
 			default:
 				if !fc.stream() && (fc.Fault == "short-frame") {
@@ -551,7 +562,7 @@ func runCase(fc fcase) {
 		if fc.Ender == "none" || !reached {
 			enabling = time.Now()
 			switch fc.Fault {
-			case "silence", "silence-after-first", "dial-block":
+			case "silence", "silence-after-first", "dial-block", "stray-then-silence":
 				bound = wSilence
 			case "short-frame":
 				if !fc.stream() {
@@ -578,7 +589,21 @@ func runCase(fc fcase) {
 	if len(stuck) > 0 {
 		dump := leak.Full()
 		inMosdns := strings.Contains(dump, "mosdns/v5/pkg/upstream/transport.")
+		dls := map[string]any{}
+		for _, c := range w.net.Conns() {
+			var l []string
+			ds := c.Deadlines()
+			if len(ds) > 12 {
+				ds = ds[len(ds)-12:]
+			}
+			for _, d := range ds {
+				l = append(l, fmt.Sprintf("%s at=%.1fms in=%.0fms", d.Kind, float64(d.At)/1e6, float64(d.In)/1e6))
+			}
+			dls[fmt.Sprintf("conn%d(closed=%v,writes=%d)", c.ID, c.IsClosed(), c.WriteCount())] = l
+		}
 		if inMosdns {
+			defer func(k string) { _ = k }(fc.key())
+			rep.Extra("last_stuck_case_deadline_log", dls)
 			rep.Violation("call-did-not-return-"+fc.key(), fmt.Sprintf("%d of %d calls still blocked %.0f s after the enabling event (%s)", len(stuck), len(calls), bound.Seconds(), fc.Ender), wit(map[string]any{"goroutines": trunc(dump, 60000)}))
 		} else {
 			rep.Inconclusive("case %+v: watchdog expired but no goroutine is inside the transport", fc)
@@ -722,7 +747,7 @@ func trunc(s string, n int) string {
 
 // leakCheck: after a batch (all transports closed) no transport goroutine may remain.
 func leakCheck(batch []fcase) {
-	left := leak.WaitNone([]string{"mosdns/v5/pkg/upstream/transport."}, nil, wCtx)
+	left := leak.WaitNone([]string{"mosdns/v5/pkg/upstream/transport.", "mosdns/v5/pkg/upstream."}, nil, wCtx)
 	rep.Count("leak_checks", 1)
 	if len(left) == 0 {
 		return
@@ -736,7 +761,7 @@ func leakCheck(batch []fcase) {
 		seen[fp] = true
 		top := "?"
 		for _, l := range strings.Split(g.Text, "\n") {
-			if strings.Contains(l, "mosdns/v5/pkg/upstream/transport.") {
+			if strings.Contains(l, "mosdns/v5/pkg/upstream/transport.") || strings.Contains(l, "mosdns/v5/pkg/upstream.") {
 				top = strings.TrimSpace(l)
 				if i := strings.LastIndexByte(top, '('); i > 0 {
 					top = top[:i] // drop the argument list
@@ -792,9 +817,15 @@ func main() {
 			fmt.Println("cannot load replay:", err)
 			os.Exit(3)
 		}
-		for i := 0; i < 5; i++ {
-			runBatch([]fcase{c.Case}, 1)
+		// schedule-dependent cases: many perturbed repetitions, run concurrently
+		sched.Perturb(rep.Seed, 0.2, 200*time.Microsecond)
+		var many []fcase
+		for i := 0; i < 96; i++ {
+			cc := c.Case
+			cc.Seed += int64(i)
+			many = append(many, cc)
 		}
+		runBatch(many, 32)
 		rep.Finish()
 	}
 	rng := rand.New(rand.NewSource(rep.Seed))
@@ -807,7 +838,7 @@ func main() {
 		k int
 	}
 	faults := []fk{{"none", 0}, {"dial-error", 0}, {"write-error", 1}, {"write-error", 2}, {"write-error", 3}, {"read-error", 1}, {"read-error", 2}, {"eof", 1}, {"eof", 2}, {"short-frame", 0}, {"truncated-frame", 0}, {"garbage", 0}, {"peer-close-inflight", 1}}
-	slowFaults := []fk{{"dial-block", 0}, {"silence", 0}, {"silence-after-first", 0}}
+	slowFaults := []fk{{"dial-block", 0}, {"silence", 0}, {"silence-after-first", 0}, {"stray-then-silence", 0}}
 	callersSet := []int{1, 4, 32}
 	var fast, slow []fcase
 	skipped := 0
@@ -844,7 +875,8 @@ func main() {
 							continue
 						}
 						fc := fcase{Transport: tr, Callers: n, Fault: f.f, K: f.k, Point: p, Ender: e, Seed: rng.Int63n(1 << 40)}
-						if !reachable(fc) {
+						if !reachable(fc) || (f.f == "stray-then-silence" && tr == "reuse") {
+							// (the non-pipelined transport has no ID matching: any frame is "the" reply)
 							skipped++
 							continue
 						}
@@ -857,6 +889,16 @@ func main() {
 								continue
 							}
 							slow = append(slow, fc)
+							if f.f == "silence-after-first" && n == 4 && tr != "reuse" {
+								// the deadline hand-over between reader and callers is schedule
+								// dependent: repeat under different perturbation seeds (runs
+								// concurrently with the other slow cases, costs no wall time)
+								for k := 0; k < 24; k++ {
+									fc2 := fc
+									fc2.Seed = rng.Int63n(1 << 40)
+									slow = append(slow, fc2)
+								}
+							}
 						} else {
 							fast = append(fast, fc)
 						}
@@ -880,6 +922,11 @@ func main() {
 			}(fc)
 		}
 		wg.Wait()
+	}()
+	slowWg.Add(1)
+	go func() {
+		defer slowWg.Done()
+		realSilentPeers()
 	}()
 	rep.Count("slow_cases(own timeouts expire naturally)", int64(len(slow)))
 	rep.Count("fast_cases", int64(len(fast)))
